@@ -239,7 +239,14 @@ func TestC01Retransmit(t *testing.T) {
 		cfg := baseConfig()
 		cfg.AtLeastOnceMax = rapid.SampledFrom([]int{1, 2, 3, 5, 16}).Draw(rt, "max1")
 		cfg.ExactlyOnceMax = rapid.SampledFrom([]int{1, 2, 3, 5, 16}).Draw(rt, "max2")
-		h := newH(rt, "C01", sim.Options{Config: cfg})
+		// (sometimes the session stands just before the wrap of the 14-bit
+		// identifier sequence: the window of pending transfers straddles it)
+		var h *H
+		if rapid.IntRange(0, 3).Draw(rt, "startAtWrap") == 0 && cfg.AtLeastOnceMax > 1 && cfg.ExactlyOnceMax > 1 {
+			h = newWrapH(rt, "C01", cfg, []byte{1, 2})
+		} else {
+			h = newH(rt, "C01", sim.Options{Config: cfg})
+		}
 		h.Act("config AtLeastOnceMax=%d ExactlyOnceMax=%d", cfg.AtLeastOnceMax, cfg.ExactlyOnceMax)
 		var fc faultCounters
 		nontrivial := false
@@ -265,7 +272,9 @@ func TestC01Retransmit(t *testing.T) {
 		}
 		rt.Repeat(actions)
 
-		h.drain(h.allPersistedDone)
+		// (adopted transfers have no exchange channel to wait for: their
+		// records leaving the Persistence is the observable)
+		h.drain(func() bool { return h.allPersistedDone() && (len(h.inherited) == 0 || h.outboundStoreEmpty()) })
 		noPanics(h)
 		h.checkWire()
 		msgs := h.messages()
